@@ -12,7 +12,7 @@ EXC_KINDS = ['forbidden', 'notfound', 'pme', 'valueerror', 'boom', 'csrf']      
 RES_PATHS = [[], ['a'], ['a', 'b']]                                      # CRes index
 CTX_NAMES = [None, 'Root', 'A', 'B', 'I']
 EXC_CTX_NAMES = ['Boom', 'Exception', 'HTTPForbidden', 'HTTPNotFound', 'ValueError']
-PERM_TOKENS = ['view', 'edit', 'NPR', 'ZERO', 'EMPTY']
+PERM_TOKENS = ['view', 'edit', 'NPR', 'ZERO', 'EMPTY', 'NPRC']   # NPRC: a str EQUAL to the marker but not the constant object
 WRAPPERS = ['w1', 'w2']
 ROUTES = ['r1', 'r2']
 KINDS = ['fn', 'fn1', 'cls', 'cls2', 'attr', 'json']
@@ -74,7 +74,11 @@ def setup():
     resources = [root, a, b]
     classes = {'Root': Root, 'A': A, 'B': B, 'I': I, 'Boom': Boom, 'Exception': Exception,
                'HTTPForbidden': HTTPForbidden, 'HTTPNotFound': HTTPNotFound, 'ValueError': ValueError}
-    perm_obj = {'view': 'view', 'edit': 'edit', 'NPR': NO_PERMISSION_REQUIRED, 'ZERO': Perm.ZERO, 'EMPTY': ''}
+    # NPRC: the marker VALUE as a view table parsed from JSON / ini / ZCML would carry it -- an equal, non-identical str
+    npr_copy = ''.join(list(NO_PERMISSION_REQUIRED))
+    assert npr_copy == NO_PERMISSION_REQUIRED and npr_copy is not NO_PERMISSION_REQUIRED
+    perm_obj = {'view': 'view', 'edit': 'edit', 'NPR': NO_PERMISSION_REQUIRED, 'ZERO': Perm.ZERO, 'EMPTY': '',
+                'NPRC': npr_copy}
     static_dir = os.path.join(tempfile.gettempdir(), 'C05_static')      # one fixed scratch directory, one 6-byte file
     os.makedirs(static_dir, exist_ok=True)
     fn = os.path.join(static_dir, 'f.txt')
@@ -112,7 +116,7 @@ def perm_token(obj):
 
 def perm_text(tok):
     """the text the model sees for a permission token"""
-    if tok == 'NPR':
+    if tok in ('NPR', 'NPRC'):
         return _P['NO_PERMISSION_REQUIRED']
     if tok == 'EMPTY':
         return ''
@@ -189,6 +193,13 @@ def _policy_classes():
 
     class TruthyPolicy(PolicyMixin):
         pass
+
+    def stale_permits(request, context, permission):
+        """what the attribute `permits` of a `swap` policy resolves to WHILE THE APPLICATION IS CONFIGURED (a lazily built
+        / hot-swapped backend): says yes to everything and logs nothing.  Once the application is built the attribute
+        resolves to the real method; code that asks `policy.permits(...)` per request never reaches this one."""
+        return True
+    P['stale_permits'] = stale_permits
 
     class FalsyPolicy(PolicyMixin, dict):
         """a policy object that happens to be an (empty, hence falsy) mapping"""
@@ -387,6 +398,8 @@ class World:
         for s in stmts:
             if s['k'] == 'policy':
                 self.policy = (P['FalsyPolicy'] if s['falsy'] else P['TruthyPolicy'])()
+                if s.get('swap'):
+                    self.policy.permits = P['stale_permits']       # instance attribute, removed when the app is built
                 if s['ctor']:
                     ctor['security_policy'] = self.policy
             if s['k'] == 'defperm' and s['ctor']:
@@ -406,8 +419,10 @@ class World:
                 if case.get('warm'):
                     # the application is live between the commits: it serves requests (and fills the view-lookup cache)
                     self.app = cfg.make_wsgi_app()
+                    self._go_live()
                     self.warm_obs = [self.run(r) for r in case['warm']]
         self.app = cfg.make_wsgi_app()
+        self._go_live()
         self.route_iface = {}
         for r in ROUTES:
             ri = cfg.registry.queryUtility(P['IRouteRequest'], name=r)
@@ -417,6 +432,12 @@ class World:
         rq = self.app.request_factory({'REQUEST_METHOD': 'GET', 'PATH_INFO': '/', 'SERVER_NAME': 'x', 'SERVER_PORT': '80',
                                        'wsgi.url_scheme': 'http'})
         self.wrap_sro = [self.iid(i) for i in P['providedBy'](rq).__sro__]
+
+    def _go_live(self):
+        """the application has been built: from now on the policy object's `permits` is the real one"""
+        pol = getattr(self, 'policy', None)
+        if pol is not None:
+            pol.__dict__.pop('permits', None)
 
     def _stmt(self, s):
         P, cfg = _P, self.cfg
@@ -445,6 +466,8 @@ class World:
             kw = {}
             if s['perm'] is not None:
                 kw['permission'] = P['perm_obj'][s['perm']]
+            elif s.get('xnone'):
+                kw['permission'] = None          # "not specified", spelled out (forwarded from an optional setting)
             cfg.add_static_view('static', P['static_dir'], **kw)
             return
         view, attr, renderer = make_view(tag, s['kind'], s['behave'], s.get('vd') if k == 'view' else None)
@@ -465,6 +488,8 @@ class World:
         if k == 'view':
             if s['perm'] is not None:
                 kw['permission'] = P['perm_obj'][s['perm']]
+            elif s.get('xnone'):
+                kw['permission'] = None          # "not specified", spelled out
             if s['ctx'] is not None:
                 kw['context'] = P['classes'][s['ctx']]
             if s.get('exc_only'):
